@@ -146,7 +146,13 @@ def run_filter(case):
   elif memk == "longer":
     mem_arg, mem = list(msyms) + [sym("extra1"), sym("extra2")], msyms
   elif memk == "generator":
-    mem_arg = (v for v in itertools.chain(msyms, itertools.repeat(sym("extra"))))
+    def endless_mem():
+      for v in msyms:
+        yield v
+      for i in range(64):
+        yield sym("extra")
+      raise RuntimeError("the endless memory iterable was drained (only its first `order` items are needed)")
+    mem_arg = endless_mem()
     mem = msyms
   elif memk == "stream":
     # a Stream is iterable AND callable: it must be iterated, not called
